@@ -371,6 +371,7 @@ type Rows struct {
 	binary  bool
 	failAt  int
 	failErr error
+	buf     []byte
 }
 
 var (
@@ -399,9 +400,22 @@ func (r *Rows) Next(dest []driver.Value) error {
 	}
 	row := r.rows[r.pos]
 	r.pos++
+	// byte values are handed out as slices of ONE buffer that the next row overwrites, as go-sql-driver/mysql
+	// hands out slices of its packet buffer: whoever keeps them (sql.RawBytes) must copy them first
+	r.buf = r.buf[:0]
 	for i := range dest {
 		if i < len(row) {
 			dest[i] = wire(row[i], r.cols[i], r.binary)
+			if b, ok := dest[i].([]byte); ok {
+				if cap(r.buf)-len(r.buf) < len(b) {
+					grown := make([]byte, len(r.buf), 2*cap(r.buf)+len(b)+64)
+					copy(grown, r.buf)
+					r.buf = grown // (earlier values of this row keep pointing into the old array: still theirs)
+				}
+				start := len(r.buf)
+				r.buf = append(r.buf, b...)
+				dest[i] = r.buf[start:len(r.buf):len(r.buf)]
+			}
 		}
 	}
 	return nil
